@@ -15,8 +15,14 @@ def _ints(e, st, name, n):
     return e.new_obj(st, Arr(z3.Array(name, z3.IntSort(), z3.IntSort()), (n,), 'int'))
 
 
+def _vec(n):
+    """the argument is a vector of counts (symbolic Arr / ndarray / list), not one integer"""
+    return getattr(n, 'ndim', 0) >= 1 or isinstance(n, (list, tuple))
+
+
 class ValidateStates(Contract):
-    """form='array': n is an integer vector; form='scalar': n is one integer, broadcast to mi_dim entries"""
+    """form='array': n is an integer vector; form='scalar': n is one integer, broadcast to mi_dim entries.
+    At call sites the clauses follow the form of the actual argument."""
     key = F + '_validate_feature_states_array'
 
     def __init__(self, form='array'):
@@ -31,7 +37,7 @@ class ValidateStates(Contract):
 
     def raises(self, L, A, G):
         n, d = A['n'], A['mi_dim']
-        if self.form == 'array':
+        if _vec(n):
             return {'DataInvalid': L.Or(L.len(n) != d, L.exists(0, L.len(n), lambda i: n[i] < 2))}
         return {'DataInvalid': L.And(d > 0, n < 2)}
 
@@ -41,7 +47,7 @@ class ValidateStates(Contract):
 
     def ensures(self, L, A, N, R, G, V):
         n, d = A['n'], A['mi_dim']
-        val = (lambda i: n[i]) if self.form == 'array' else (lambda i: n)
+        val = (lambda i: n[i]) if _vec(n) else (lambda i: n)
         return [('one-count-per-feature', L.len(R) == d),
                 ('counts-unchanged', L.forall(0, d, lambda i: R[i] == val(i))),
                 ('at-least-two-states', L.forall(0, d, lambda i: R[i] >= 2))]
@@ -73,17 +79,15 @@ class ChannelCapacity(Contract):
         from pyvc.logic import Arr
         FA, FB = z3.Int('FA'), z3.Int('FB')
         mi = e.new_obj(st, Arr(z3.Array('mi', z3.IntSort(), z3.IntSort(), z3.RealSort()), (FA, FB), 'real'))
-        if self.form == 'array':
-            return {'mi': mi, 'n_x': _ints(e, st, 'n_x', z3.Int('len_x')), 'n_y': _ints(e, st, 'n_y', z3.Int('len_y'))}
-        return {'mi': mi, 'n_x': z3.Int('n_x0'), 'n_y': z3.Int('n_y0')}
+        # forms: 'array' (two vectors), 'scalar' (two integers), 'int-x' (integer n_x, vector n_y), 'int-y' (vector n_x, integer n_y)
+        return {'mi': mi, 'n_x': _ints(e, st, 'n_x', z3.Int('len_x')) if self.form in ('array', 'int-y') else z3.Int('n_x0'),
+                'n_y': _ints(e, st, 'n_y', z3.Int('len_y')) if self.form in ('array', 'int-x') else z3.Int('n_y0')}
 
     def raises(self, L, A, G):
         mi, nx, ny = A['mi'], A['n_x'], A['n_y']
         FA, FB = L.shape(mi, 0), L.shape(mi, 1)
-        if self.form == 'array':
-            return {'DataInvalid': L.Or(L.len(nx) != FA, L.len(ny) != FB, L.exists(0, L.len(nx), lambda i: nx[i] < 2),
-                                        L.exists(0, L.len(ny), lambda j: ny[j] < 2))}
-        return {'DataInvalid': L.Or(L.And(FA > 0, nx < 2), L.And(FB > 0, ny < 2))}
+        bad = lambda n, d: L.Or(L.len(n) != d, L.exists(0, L.len(n), lambda i: n[i] < 2)) if _vec(n) else L.And(d > 0, n < 2)
+        return {'DataInvalid': L.Or(bad(nx, FA), bad(ny, FB))}
 
     def ensures(self, L, A, N, R, G, V):
         mi, nx, ny = A['mi'], A['n_x'], A['n_y']
@@ -95,8 +99,8 @@ class ChannelCapacity(Contract):
             import math
             ln = lambda x: math.log(float(x))
             same = lambda a, b: abs(float(a) - float(b)) <= 1e-12 * max(1.0, abs(float(b)))     # floating-point quotient: 1e-12 relative
-        vx = (lambda i: nx[i]) if self.form == 'array' else (lambda i: nx)
-        vy = (lambda j: ny[j]) if self.form == 'array' else (lambda j: ny)
+        vx = (lambda i: nx[i]) if _vec(nx) else (lambda i: nx)
+        vy = (lambda j: ny[j]) if _vec(ny) else (lambda j: ny)
         return [('shape', L.And(L.shape(R, 0) == FA, L.shape(R, 1) == FB)),
                 ('entry-over-log-of-the-smaller-state-count', L.forall2((0, FA), (0, FB), lambda i, j:
                     same(R[i, j], mi[i, j] / ln(L.real(L.ite(vx(i) <= vy(j), vx(i), vy(j)))))))]
@@ -104,9 +108,7 @@ class ChannelCapacity(Contract):
     def pins(self):
         import z3
         FA, FB = z3.Int('FA'), z3.Int('FB')
-        if self.form == 'array':
-            return [[FA == a, FB == b, z3.Int('len_x') == a, z3.Int('len_y') == b] for a, b in ((1, 1), (1, 2), (2, 1), (2, 2))]
-        return [[FA == a, FB == b] for a, b in ((1, 1), (1, 2), (2, 1), (2, 2))]
+        return [[FA == a, FB == b, z3.Int('len_x') == a, z3.Int('len_y') == b] for a, b in ((1, 1), (1, 2), (2, 1), (2, 2))]
 
     def want(self):
         import z3
@@ -117,16 +119,15 @@ class ChannelCapacity(Contract):
             v = m.eval(t, True)
             return [v.numerator_as_long(), v.denominator_as_long()] if z3.is_rational_value(v) else [0, 1]
         out = {'mi': lambda m: [[q(m, m_[i, j]) for j in range(I(m, z3.Int('FB')))] for i in range(I(m, z3.Int('FA')))]}
-        if self.form == 'array':
-            for nm, ln_ in (('n_x', 'len_x'), ('n_y', 'len_y')):
+        for nm, ln_, vec in (('n_x', 'len_x', self.form in ('array', 'int-y')), ('n_y', 'len_y', self.form in ('array', 'int-x'))):
+            if vec:
                 a = z3.Array(nm, z3.IntSort(), z3.IntSort())
                 out[nm] = (lambda a, ln_: lambda m: [I(m, a[t]) for t in range(I(m, z3.Int(ln_)))])(a, ln_)
-        else:
-            out['n_x'] = lambda m: I(m, z3.Int('n_x0'))
-            out['n_y'] = lambda m: I(m, z3.Int('n_y0'))
+            else:
+                out[nm] = (lambda nm: lambda m: I(m, z3.Int(nm + '0')))(nm)
         return out
 
 
 def registry(form='array'):
-    v, c = ValidateStates(form), ChannelCapacity(form)
+    v, c = ValidateStates('scalar' if form == 'scalar' else 'array'), ChannelCapacity(form)
     return {v.key: v, c.key: c}
